@@ -206,7 +206,15 @@ def judge(ctx, iso3, options, which, cap, p):
         if direction == "same":
             ctx.abort("scaled_instance_not_solved")
             return
-        ctx.fail("relaxation-makes-programme-unsolvable:" + p["kind"], what, case)
+        # which stage failed?  The property speaks of the optimum: if the FIRST-stage programme of the relaxed instance is solvable and
+        # attains at least the base value (its matrix handed to HiGHS), the optimum did not decrease; that one of the model's later
+        # tie-breaking solves then gives up on this (perturbed, never pipeline-produced) instance is the fragility C16 judges on real presets
+        from checks.c02 import own_programme
+        own = own_programme(c2, tc2, "to_humans")[0]
+        if own is not None and own >= pf - tol:
+            ctx.abort("later_stage_solve_fails_on_perturbed_instance")
+            return
+        ctx.fail("relaxation-makes-programme-unsolvable:" + p["kind"], what + "; first-stage programme by HiGHS: %r" % own, case)
         return
     moved = abs(pf2 - pf) > tol
     if moved or (p["kind"] == "scale" and not (0.5 <= p["scale"] <= 2)):
